@@ -316,6 +316,9 @@ class DiffAntisymRBF(DiffRBF):
 
 
 class DiffLinearKernel(DiffKernelMixin, Kernel):
+    def __init__(self):
+        pass
+
     def __call__(self, X, Y=None, eval_gradient=False):
         if Y is None:
             Y = X
